@@ -47,8 +47,60 @@ def site_of(fn, b):
     return fn.loc()
 
 
-def guard_edges(ctx, fn, pats, rid, allow_missing=False, which="ok"):
-    """Union of ok-edges of all calls in fn matching pats."""
+_WRAP = {}
+
+
+def ok_wrappers(ctx, pats):
+    """Workspace functions W returning Result such that every non-error return of W takes the
+    Ok-edge of a call matching `pats` (or of another such wrapper): a call of W whose result is
+    Ok implies the guard ran and returned Ok.  (Min et al.: treat a wrapper as the check itself.)"""
+    if isinstance(pats, str) or callable(pats):
+        pats = [pats]
+    key = (ctx.db.dir, tuple(p if isinstance(p, str) else id(p) for p in pats))
+    if key in _WRAP:
+        return _WRAP[key]
+    S = set()
+    cands = []
+    for f in ctx.db.fns.values():
+        if callgraph.non_production(f.id) or not f.locals or not f.locals[0]["ty"].startswith("core::result::Result<"):
+            continue
+        if f.dk not in ("Fn", "AssocFn"):
+            continue
+        cands.append(f)
+    changed = True
+    rounds = 0
+    while changed and rounds < 6:
+        changed = False
+        rounds += 1
+        allp = list(pats) + sorted(S)
+        for f in cands:
+            if f.id in S:
+                continue
+            sites = cfg.find_calls(f, allp)
+            if not sites:
+                continue
+            edges = set()
+            for b, _t in sites:
+                edges |= cfg.call_guard(f, b).ok
+            if not edges:
+                continue
+            err = cfg.error_return_blocks(f)
+            rets = cfg.return_blocks(f)
+            holds, _p = cfg.must_pass(f, edges, rets, cut_nodes=err)
+            if holds:
+                S.add(f.id)
+                changed = True
+    _WRAP[key] = S
+    return S
+
+
+def guard_edges(ctx, fn, pats, rid, allow_missing=False, which="ok", wrappers=True):
+    """Union of ok-edges of all calls in fn matching pats (or an Ok-wrapper of pats)."""
+    if wrappers and which == "ok":
+        ps = [pats] if (isinstance(pats, str) or callable(pats)) else list(pats)
+        w = ok_wrappers(ctx, ps) - {fn.id}
+        if w:
+            pats = ps + sorted(w)
     sites = cfg.find_calls(fn, pats)
     if not sites:
         if not allow_missing:
